@@ -349,11 +349,11 @@ Theorem fragment_body_text_escaped s rest :
 Proof. split; [reflexivity|exact (proj1 (escape_no_angle false s))]. Qed.
 
 (* ------------------------------------------------------------------ the page's title (get_title) *)
-Lemma first_title_foreign name a v cs : is_foreign name = true -> first_title (SEl name a v cs) = None.
+Lemma first_title_foreign name a v cs : holds_no_page_title name = true -> first_title (SEl name a v cs) = None.
 Proof. intros F. cbn [first_title]. rewrite F. reflexivity. Qed.
 
 (* a graphic contributes no title, whatever it contains *)
-Lemma first_title_in_skips_graphic name a v cs rest : is_foreign name = true ->
+Lemma first_title_in_skips_graphic name a v cs rest : holds_no_page_title name = true ->
   first_title_in (SEl name a v cs :: rest) = first_title_in rest.
 Proof. intros F. cbn [first_title_in]. rewrite (first_title_foreign _ a v cs F). reflexivity. Qed.
 
@@ -372,7 +372,7 @@ Qed.
 Theorem doc_title_head_first d t : first_title_in (d_head d) = Some t -> doc_title d = t.
 Proof. intros H. unfold doc_title. rewrite first_title_in_app, H. reflexivity. Qed.
 Theorem doc_title_body_graphics_ignored d name a v cs rest :
-  first_title_in (d_head d) = None -> d_body d = SEl name a v cs :: rest -> is_foreign name = true ->
+  first_title_in (d_head d) = None -> d_body d = SEl name a v cs :: rest -> holds_no_page_title name = true ->
   doc_title d = match first_title_in rest with Some t => t | None => [] end.
 Proof.
   intros H B F. unfold doc_title. rewrite first_title_in_app, H, B, (first_title_in_skips_graphic _ a v cs rest F). reflexivity.
